@@ -980,4 +980,28 @@ def sorted_(X, st, v, kw):
         lst.tag = ("sorted-keys", guard)
         lst.getter = lambda i: (_ for _ in ()).throw(Unsupported("element of sorted key list"))
         return [Res(st, st.alloc(lst))]
+    if d.ksort == z3.IntSort() and d.concrete is None:
+        # sorted(list of floats): assumed contract -- an ascending permutation; the identity on a strictly
+        # increasing list.  Only the second case is modelled; it must be *entailed* by the state.
+        i = z3.Int(f"srt!{core.uid()}")
+        e0, e1 = d.item(i), d.item(i + 1)
+        f0, f1 = X.B.num(e0), X.B.num(e1)
+        if f0 is None or f1 is None:
+            raise Unsupported("sorted over non-numbers")
+        inc = st.forall(i, z3.And(i >= 0, i + 1 < d.length), f0.lt(f1), equiv=True, name="sorted-input")
+        neg = st.fork()
+        neg.pc.append(z3.Not(inc))
+        if full_feasible(neg):
+            raise Unsupported("sorted() of a list not known to be increasing")
+        st.add(inc)
+        return [Res(st, st.alloc(LList(d.length, d.item)))]
     raise Unsupported("sorted")
+
+
+def full_feasible(st, timeout_ms=8000):
+    """feasibility including ground instances of the quantified facts"""
+    from . import smt
+
+    vc = smt.build_vc("feasible", st, z3.BoolVal(False))
+    smt.discharge_z3(vc, timeout_ms)
+    return vc.verdict != "unsat"
